@@ -85,9 +85,58 @@ func isRealZero(t *smt.Term) bool { return t == realZero }
 
 // facetFor returns the group facet of b for modulus m, promoting plain
 // integers to atoms.
+// stripMultiples removes summands k*m (k an integer constant) from a sum: what is left is
+// congruent to t modulo m.
+func stripMultiples(t, m *smt.Term) *smt.Term {
+	if t.Op != smt.OSum {
+		return t
+	}
+	rest := smt.IntC(new(big.Int))
+	if t.Rat != nil && t.Rat.Sign() != 0 {
+		if !t.Rat.IsInt() {
+			return t
+		}
+		rest = smt.IntC(new(big.Int).Set(t.Rat.Num()))
+	}
+	dropped := false
+	for i, a := range t.Args {
+		if a == m && t.Coef[i].IsInt() {
+			dropped = true
+			continue
+		}
+		if !t.Coef[i].IsInt() {
+			return t
+		}
+		rest = smt.Add(rest, smt.Mul(smt.IntC(new(big.Int).Set(t.Coef[i].Num())), a))
+	}
+	if !dropped {
+		return t
+	}
+	return rest
+}
+
+// congruentElement: the group element an integer is congruent to modulo m, if it is syntactically
+// "group element + k*m" (another representative of the same residue class, as A + N).
+func (ex *Exec) congruentElement(b BigVal, m *smt.Term) (*GroupFacet, bool) {
+	if b.G != nil || ex.groupRev == nil {
+		return nil, false
+	}
+	r := stripMultiples(b.I, m)
+	if r == b.I {
+		return nil, false
+	}
+	if g, ok := ex.groupRev[r.ID]; ok && g.Mod == m {
+		return g, true
+	}
+	return nil, false
+}
+
 func (ex *Exec) facetFor(b BigVal, m *smt.Term) *GroupFacet {
 	if b.G != nil && b.G.Mod == m {
 		return b.G
+	}
+	if g, ok := ex.congruentElement(b, m); ok {
+		return &GroupFacet{Mod: g.Mod, Exps: g.Exps, Reduced: false}
 	}
 	if v, ok := b.I.ConstInt(); ok && v.Cmp(big.NewInt(1)) == 0 {
 		return &GroupFacet{Mod: m, Exps: map[string]*smt.Term{}, Reduced: true}
